@@ -328,9 +328,10 @@ func (in *Interp) checkSide(t *T) string {
 // branchTrue is branch() for conditions that are expected to hold (bounds, nil, zero checks):
 // the negation is queried first so that the common case costs one query.
 func (in *Interp) branchTrue(c *T) bool {
-	if c.IsConst() || in.pos < len(in.prefix) || in.speculating || in.initMode > 0 {
-		return in.branch(c)
+	if c.IsConst() {
+		return c.k == 1
 	}
+	// always decided on the negation, so that recorded decisions mean the same thing in replays
 	return !in.branch(in.tb.Not(c))
 }
 
